@@ -17,7 +17,7 @@ Print Assumptions C01_met.
 
 Theorem C01_detect : forall cx, results_known cx ->
   forall c g, met (detect cx c g) = holds cx c g false.
-Proof. intros cx Hk c g. apply eval_met_holds. exact Hk. Qed.
+Proof. exact detect_met_holds. Qed.
 Print Assumptions C01_detect.
 
 (* `not` is plain negation for every kind of condition (the xor handling) *)
@@ -26,27 +26,90 @@ Theorem C01_neg_is_negation : forall cx c g local,
 Proof. exact holds_negate. Qed.
 Print Assumptions C01_neg_is_negation.
 
-(* reasons: every profile reported as a reason hits the evaluated gene itself (soundness half of
-   the "exactly the rule's profiles that hit that gene" clause; the converse, with the cds and
-   minscore provisos, rests on the correspondence run only) *)
-Theorem C01_reasons_hit_gene_partial : forall cx c g local y,
-  In y (matches (eval cx c g local)) -> has cx g y = true.
-Proof. exact eval_matches_hit_gene. Qed.
-Print Assumptions C01_reasons_hit_gene_partial.
+(* REASONS, soundness and completeness, as an equality of canonical (strictly increasing) lists,
+   for every condition tree and both evaluation modes: the reported reason profiles are exactly
+   [reasons] = the profiles of the formula that hit the gene itself (negation plays no role, a
+   minimum lists its options found on the gene whether or not the count is reached), a minscore
+   counting only when the gene's own score suffices and a cds(...) group only when the gene
+   satisfies the group itself. *)
+Theorem C01_reasons : forall cx, results_known cx ->
+  forall c g local, matches (eval cx c g local) = reasons cx c g local.
+Proof. exact eval_matches_reasons. Qed.
+Print Assumptions C01_reasons.
 
-(* a gene is reported as anchoring (met and at least one reason) only if the formula is true at
-   it and one of its own profiles is a reason *)
+(* every reason is a profile named by the rule that hits the evaluated gene *)
+Theorem C01_reasons_are_rule_profiles_on_gene : forall cx c g local y,
+  In y (reasons cx c g local) -> In y (profiles c) /\ has cx g y = true.
+Proof. exact reasons_profiles. Qed.
+Print Assumptions C01_reasons_are_rule_profiles_on_gene.
+
+(* the property text read literally (a cds group counts iff the gene satisfies the group itself,
+   [reasons_text]) is what detect reports for every tree the rule grammar can produce (no cds(...)
+   inside cds(...)) ... *)
+Theorem C01_reasons_text : forall cx, results_known cx -> forall c g, cds_flat c = true ->
+  matches (detect cx c g) = reasons_text cx c g.
+Proof. exact detect_reasons_text. Qed.
+Print Assumptions C01_reasons_text.
+
+(* ... and not for a cds(...) built inside a cds(...) through the class constructors: the inner
+   group, evaluated in single-gene mode, keeps its reasons although the gene does not satisfy it *)
+Theorem C01_reasons_text_nested_cds_refuted :
+  exists cx c g, results_known cx /\ matches (detect cx c g) <> reasons_text cx c g.
+Proof. exact nested_cds_witness. Qed.
+Print Assumptions C01_reasons_text_nested_cds_refuted.
+
+(* ANCHOR: a gene is reported as anchoring (met and at least one reason) exactly when the formula
+   is true at it and it has at least one reason profile of its own *)
 Theorem C01_anchor : forall cx, results_known cx -> forall c g,
-  met (detect cx c g) = true -> matches (detect cx c g) <> [] ->
-  holds cx c g false = true /\ exists p, In p (matches (detect cx c g)) /\ has cx g p = true.
-Proof.
-  intros cx Hk c g Hm Hne. split.
-  - rewrite <- (eval_met_holds cx Hk). exact Hm.
-  - destruct (matches (detect cx c g)) as [|p r] eqn:Hmt; [contradiction|].
-    exists p. split; [left; reflexivity|]. apply (eval_matches_hit_gene cx c g false).
-    unfold detect in Hmt. rewrite Hmt. left. reflexivity.
-Qed.
+  (met (detect cx c g) = true /\ matches (detect cx c g) <> []) <->
+  (holds cx c g false = true /\ reasons cx c g false <> []).
+Proof. exact detect_anchor_iff. Qed.
 Print Assumptions C01_anchor.
+
+Theorem C01_anchor_bool : forall cx, results_known cx -> forall c g,
+  is_anchor (detect cx c g) = anchors cx c g.
+Proof. exact is_anchor_anchors. Qed.
+Print Assumptions C01_anchor_bool.
+
+(* ANCILLARY HITS: gene o is listed with profile p exactly when [anc_has]: p is a name of the
+   formula that is not on g, or an option of a minimum that g does not reach alone but reaches
+   with the genes in range, and o is a gene in range carrying p (operands pass their lists up
+   through and/or/groups whatever their truth value; minscore and cds list nothing) *)
+Theorem C01_ancillary : forall cx, results_known cx ->
+  forall c g local o p, anc_mem (ancs (eval cx c g local)) o p <-> anc_has cx c g local o p = true.
+Proof. exact eval_ancs_spec. Qed.
+Print Assumptions C01_ancillary.
+
+Theorem C01_ancillary_in_range : forall cx c g local o p, anc_has cx c g local o p = true ->
+  In o (map fst (feats cx)) /\ o <> g /\ in_range cx g o = true /\ has cx o p = true /\ In p (profiles c).
+Proof. exact anc_has_facts. Qed.
+Print Assumptions C01_ancillary_in_range.
+
+(* APPLY_CLUSTER_RULES, one rule: (gene o, profile p) is recorded for the rule exactly when some
+   gene g anchors in its own evaluation and either o = g with p one of its reasons or g lists
+   (o, p) as ancillary; the genes the rule is reported for (cluster_type_hits[rule]) are the
+   anchoring genes and the ancillary genes of anchoring genes *)
+Theorem C01_rule_domains : forall c evals, evals_known evals ->
+  forall o p, anc_mem (apply_rule c evals) o p <-> recorded_spec c evals o p = true.
+Proof. exact apply_rule_mem. Qed.
+Print Assumptions C01_rule_domains.
+
+Theorem C01_rule_hits : forall c evals, evals_known evals ->
+  forall o, In o (rule_hits c evals) <->
+            exists e, In e evals /\ anchors (snd e) c (fst e) = true /\
+                      (o = fst e \/ exists p, anc_has (snd e) c (fst e) false o p = true).
+Proof. exact rule_hits_spec. Qed.
+Print Assumptions C01_rule_hits.
+
+(* "reported for the rule" at the level of apply_cluster_rules is therefore NOT "the formula is
+   true at the gene": a promoted ancillary gene need not satisfy the formula itself (three genes
+   in a row, `a and b and c`, only the middle one in range of both others) - upstream's intended
+   behaviour (test_cluster_prediction.TestAncillary), stated here so that nobody reads C01_anchor
+   as a claim about cluster_type_hits *)
+Theorem C01_rule_hits_all_self_anchoring_refuted : exists c evals o cx,
+  evals_known evals /\ In (o, cx) evals /\ In o (rule_hits c evals) /\ anchors cx c o = false /\ holds cx c o false = false.
+Proof. exact promoted_witness. Qed.
+Print Assumptions C01_rule_hits_all_self_anchoring_refuted.
 
 (* non-vacuity: a ring of 100 with genes at [0,10), [30,40) (exactly cutoff 20 after the first:
    not in range) and [85,95) (5 before the origin: in range of the first across the origin);
@@ -61,8 +124,27 @@ Example C01_nonvacuous :
   holds ex_ctx (Group false [IAnd [Single false 0; Cds false [IAnd [Single false 1; Single false 2]]]]) 0 false = true /\
   holds ex_ctx (Group false [IAnd [Single false 0; Cds true [IAnd [Single false 1; Score false 2 21]]]]) 0 false = true /\
   detect ex_ctx (Group false [IAnd [Single false 0; Cds false [IAnd [Single false 1; Single false 2]]]]) 0
-    = mkRes true [0] [].
+    = mkRes true [0] [] /\
+  (* a name and a minimum supplied across the origin by gene 2: anchor with ancillary hits *)
+  detect ex_ctx (Group false [IAnd [Single false 0; Single false 1; Minimum false 2 [0; 2]]]) 0
+    = mkRes true [0] [(2, [1; 2])] /\
+  anchors ex_ctx (Group false [IAnd [Single false 0; Single false 1; Minimum false 2 [0; 2]]]) 0 = true /\
+  cds_flat (Group false [IAnd [Single false 0; Cds true [IAnd [Single false 1; Score false 2 21]]]]) = true /\
+  evals_known [(0, ex_ctx); (1, ex_ctx); (2, ex_ctx)] /\
+  rule_hits (Group false [IAnd [Single false 0; Single false 1; Minimum false 2 [0; 2]]]) [(0, ex_ctx); (1, ex_ctx); (2, ex_ctx)] = [0; 2].
 Proof.
-  split; [intros o Ho; cbn in Ho; cbn; tauto|].
-  repeat split; vm_compute; reflexivity.
+  assert (Hk : results_known ex_ctx) by (intros o Ho; cbn in Ho; cbn; tauto).
+  split; [exact Hk|].
+  repeat split; try (vm_compute; reflexivity).
+  intros e [<-|[<-|[<-|[]]]]; exact Hk.
 Qed.
+
+(* what "the rule's profiles that hit that gene" includes: a profile the rule NEGATES is a reason
+   too.  `a or not b`, b on gene 0, a only on the neighbouring gene 1: the formula is true at gene
+   0 through the neighbour, its only reason is the negated b, and gene 0 anchors. *)
+Definition neg_ctx : ctx :=
+  mkCtx 20 None [(0, [mkPart 0 10 1]); (1, [mkPart 15 25 1])] [(0, [(1, 100)]); (1, [(0, 100)])].
+Example C01_negated_profile_is_a_reason :
+  detect neg_ctx (Group false [ICond (Single false 0); ICond (Single true 1)]) 0 = mkRes true [1] [(1, [0])] /\
+  anchors neg_ctx (Group false [ICond (Single false 0); ICond (Single true 1)]) 0 = true.
+Proof. split; vm_compute; reflexivity. Qed.
